@@ -14,15 +14,16 @@ Streams
   unit        : synthetic (file lines, disabled codes, sequence of show_error calls) fed to the *real*
                 NameCheckVisitor.show_error / show_errors_for_unused_ignores / show_errors_for_bare_ignores
   options     : synthetic option-instance lists -> real Options.is_error_code_enabled
-  lines       : random small sources -> str.splitlines() and the positions CPython's parser assigns
+  lines       : random small sources -> the real _lines() and the positions CPython's parser assigns
   model       : lake env lean --run Driver/C11.lean  (C11.check, C11.specCheck, C11.pyLines / tokLines, the D11
                 classes, C11.isErrorCodeEnabled)
 Correspondence: every real run records the raw stream of show_error calls (a recording subclass of
-NameCheckVisitor); the Lean model is fed (splitlines() of the source, disabled codes, raw stream) and must reproduce
-the failure list in order and the set used_ignores; C11.pyLines must reproduce splitlines() (stream splitlines).
-unit/options compare directly. Spec validation: Lean specCheck == Python oracle on the single-comment cases outside
-the exception classes (stream spec); Lean tokLines == CPython's line numbering (stream spec-toklines); Lean model ==
-Lean spec outside the classes on the unit cases (stream model-vs-spec; this is theorem check_eq_spec_partial).
+NameCheckVisitor); the Lean model is fed (the visitor's own _lines() of the source, disabled codes, raw stream) and must
+reproduce the failure list in order and the set used_ignores; C11.pyLines must reproduce _lines() (stream splitlines).
+unit/options compare directly. Spec validation: Lean specCheck == Python oracle on the single-comment cases (stream spec); Lean tokLines == CPython's line numbering (stream spec-toklines); Lean model ==
+Lean spec on the well-formed unit cases (stream model-vs-spec; this is theorem check_eq_spec).
+No exception class is left: the two former ones (lineOneWrap, splitlinesMismatch) were repaired in /repo (0cba813,
+ba62f49), any difference in those regions is a new violation; their witnesses stay in corpus/C11.jsonl.
 """
 import ast, contextlib, io, itertools, json, os, re, subprocess, sys, types
 
@@ -115,6 +116,20 @@ def translate(ctx):
             codes[n.func.attr] = a.attr if isinstance(a, ast.Attribute) else ast.dump(a)
     if set(codes) != {"show_errors_for_unused_ignores", "show_errors_for_bare_ignores"}:
         raise ValueError("NameCheckVisitor.check no longer calls both end-of-file passes: %r" % codes)
+    # the regex _lines() splits the contents with (ba62f49)
+    ftree = ast.parse(open(os.path.join(pya.REPO, "pyanalyze", "node_visitor.py")).read())
+    splits = []
+    for cls in ast.walk(ftree):
+        if isinstance(cls, ast.ClassDef) and cls.name == "BaseNodeVisitor":
+            for fn in cls.body:
+                if isinstance(fn, ast.FunctionDef) and fn.name == "_lines":
+                    for n in ast.walk(fn):
+                        if isinstance(n, ast.Call) and isinstance(n.func, ast.Attribute) and n.func.attr == "split" \
+                                and isinstance(n.func.value, ast.Name) and n.func.value.id == "re" and n.args \
+                                and isinstance(n.args[0], ast.Constant):
+                            splits.append(n.args[0].value)
+    if len(splits) != 1:
+        raise ValueError("BaseNodeVisitor._lines: expected exactly one re.split(<constant>, …), found %r" % splits)
     text = (
         "/-! Regenerated by harness/props/c11.py `translate` from the live pyanalyze; do not edit. -/\n"
         "namespace Pya.C11.Gen\n\n"
@@ -126,9 +141,11 @@ def translate(ctx):
         "def unusedIgnoreCode : String := %s\n\n"
         "/-- error code `NameCheckVisitor.check` passes to `show_errors_for_bare_ignores` -/\n"
         "def bareIgnoreCode : String := %s\n\n"
+        "/-- the regex `BaseNodeVisitor._lines` splits the file contents with -/\n"
+        "def linesSplitRegex : String := %s\n\n"
         "end Pya.C11.Gen\n"
     ) % (_lean_str(ic), _lean_str(suffixes[0]), _lean_str(codes["show_errors_for_unused_ignores"]),
-         _lean_str(codes["show_errors_for_bare_ignores"]))
+         _lean_str(codes["show_errors_for_bare_ignores"]), _lean_str(splits[0]))
     lean.write_if_changed(os.path.join(lean.LEAN, "PyaModel", "Generated", "EmitConsts.lean"), text)
 
 
@@ -219,8 +236,9 @@ def get_kwargs(ctx, route, off):
 
 
 def real_run(ctx, src, off=(), route="cmd"):
-    """Check `src` with real pyanalyze. Returns (failures, raw stream, used_ignores).
-    failures: (code, lineno, col, message); raw: dicts; node identities renumbered by first appearance."""
+    """Check `src` with real pyanalyze. Returns (failures, raw stream, used_ignores, lines).
+    failures: (code, lineno, col, message); raw: dicts; node identities renumbered by first appearance;
+    lines: what the visitor's own _lines() yields for the source (without the "\n" it appends)."""
     from pyanalyze.analysis_lib import make_module
     kwargs = get_kwargs(ctx, route, off)
     _MODN[0] += 1
@@ -239,7 +257,21 @@ def real_run(ctx, src, off=(), route="cmd"):
             sys.modules.pop(k, None)
     fails = [(f["code"].name if f.get("code") is not None else None, f.get("lineno"), f.get("col_offset"),
               norm(f.get("description", "")).split("\n")[0]) for f in res]
-    return fails, encode_raw(v._rec[:getattr(v, "_rec_visit_end", len(v._rec))]), sorted(v.used_ignores)
+    return (fails, encode_raw(v._rec[:getattr(v, "_rec_visit_end", len(v._rec))]), sorted(v.used_ignores),
+            real_lines(v))
+
+
+def real_lines(v):
+    return [l[:-1] if l.endswith("\n") else l for l in v._lines()]
+
+
+def lines_of_source(ctx, src):
+    """BaseNodeVisitor._lines() of the real code for a source text."""
+    global _NCV, _REC
+    if _NCV is None:
+        _NCV, _REC = _classes()
+    v = _NCV("<lines>", src, ast.parse(""), module=types.ModuleType("c11lines"), **get_kwargs(ctx, "cmd", ()))
+    return real_lines(v)
 
 
 def encode_raw(rec):
@@ -492,12 +524,12 @@ class Batch:
     def __init__(self, ctx, with_model=True):
         self.ctx, self.with_model, self.items = ctx, with_model, []
 
-    def add(self, stream, case, lines, off, fails, raw, used, what, spec_expect=None, nontriv=False):
-        # `lines` are the generator's lines (separated by "\n" = the tokenizer's lines); the model is fed what
-        # pyanalyze's _lines() sees, str.splitlines() of the source, and the source itself
+    def add(self, stream, case, lines, off, fails, raw, used, what, spec_expect=None, nontriv=False, seen=None):
+        # `lines` are the generator's lines (separated by "\n" = the tokenizer's lines); the model is fed `seen`,
+        # what the visitor's own _lines() produced in that run, and the source itself
         src = "".join(l + "\n" for l in lines)
-        self.items.append(dict(stream=stream, case=case, lines=src.splitlines(), src=src, off=off, fails=fails, raw=raw,
-                               used=used, what=what, spec_expect=spec_expect, nontriv=nontriv))
+        self.items.append(dict(stream=stream, case=case, lines=list(lines) if seen is None else seen, src=src, off=off,
+                               fails=fails, raw=raw, used=used, what=what, spec_expect=spec_expect, nontriv=nontriv))
 
     def flush(self):
         ctx, items = self.ctx, self.items
@@ -519,7 +551,7 @@ class Batch:
                 ctx.corr(it["stream"])
                 ctx.corr("splitlines")
                 if mo["sl"] != "ok":
-                    ctx.disagree("splitlines", it["case"], "str.splitlines(): %r" % (it["lines"],), "C11.pyLines differs")
+                    ctx.disagree("splitlines", it["case"], "_lines(): %r" % (it["lines"],), "C11.pyLines differs")
                 got = "%s used=%s" % (impl, show_used(it["used"]))
                 want = "%s used=%s" % (mo["model"], mo["used"])
                 conforms = impl == mo["model"]
@@ -565,7 +597,7 @@ def program_case(ctx, batch, base, budget):
     rng = ctx.rng
     src = "\n".join(base) + "\n"
     try:
-        D, raw0, used0 = real_run(ctx, src)
+        D, raw0, used0, lines0 = real_run(ctx, src)
     except Exception as e:  # a generated program that does not run is a generator bug, not a finding
         ctx.tag("generator_rejects")
         ctx.notes.append("program rejected (%s: %s): %r" % (type(e).__name__, e, base[:6]))
@@ -578,7 +610,8 @@ def program_case(ctx, batch, base, budget):
     ctx.sample({"program": base, "D": [list(d[:3]) for d in D]}, limit=3)
     ctx.tag("profile_" + PROFILE[0])
     batch.add("e2e-base", {"program": base, "edits": [], "off": [], "profile": PROFILE[0]}, base, [], D, raw0, used0,
-              None if not any(d[0] in ("unused_ignore", "bare_ignore") for d in D) else "unused/bare report on a program without comments")
+              None if not any(d[0] in ("unused_ignore", "bare_ignore") for d in D) else "unused/bare report on a program without comments",
+              seen=lines0)
     codes = sorted({d[0] for d in D})
     sig0 = raw_sig(raw0)
 
@@ -593,7 +626,7 @@ def program_case(ctx, batch, base, budget):
     for S in rng.sample(subsets, min(len(subsets), budget["cfg_routes"])):
         routes += [("cfg", S), ("ovr", S), ("ovr-other", S)]
     for route, S in routes:
-        D2, raw2, used2 = real_run(ctx, src, off=S, route=route)
+        D2, raw2, used2, lines2 = real_run(ctx, src, off=S, route=route)
         exp = D if route == "ovr-other" else [d for d in D if d[0] not in S]
         what = None
         if sorted(D2, key=repr) != sorted(exp, key=repr):
@@ -605,7 +638,7 @@ def program_case(ctx, batch, base, budget):
             ctx.notes.append("raw stream (codes outside S) differs when disabling %s in %r" % (list(S), base[:40]))
         ctx.tag("route_" + route.replace("-", "_"))
         batch.add("e2e-disable", {"program": base, "edits": [], "off": list(S), "route": route, "profile": PROFILE[0]}, base,
-                  [] if route == "ovr-other" else list(S), D2, raw2, used2, what, nontriv=len(exp) < len(D))
+                  [] if route == "ovr-other" else list(S), D2, raw2, used2, what, nontriv=len(exp) < len(D), seen=lines2)
 
     # ---- one comment
     n = len(base)
@@ -650,7 +683,7 @@ def program_case(ctx, batch, base, budget):
         new_lines, newno, comments = apply_edits(base, edits)
         nsrc = "\n".join(new_lines) + "\n"
         try:
-            D2, raw2, used2 = real_run(ctx, nsrc)
+            D2, raw2, used2, lines2 = real_run(ctx, nsrc)
         except SyntaxError:
             ctx.tag("variant_syntax_error")
             continue
@@ -664,7 +697,7 @@ def program_case(ctx, batch, base, budget):
             ctx.tag("sel_" + ("bare" if e[-1] is None else "code"))
         nontriv = sorted(d[:3] for d in D2) != sorted((d[0], newno.get(d[1], d[1]), d[2]) for d in D)
         batch.add(stream, {"program": base, "edits": [list(e) for e in edits], "off": [], "profile": PROFILE[0]}, new_lines, [], D2, raw2, used2,
-                  what, spec_expect=spec_expectation(D, base, edits) if single else None, nontriv=nontriv)
+                  what, spec_expect=spec_expectation(D, base, edits) if single else None, nontriv=nontriv, seen=lines2)
     batch.flush()
 
 
@@ -804,7 +837,7 @@ def run_unit(ctx, with_model=True):
             elif model[i]["model"] != "EXC:IndexError" and not any(
                     (r["line"] is not None and r["obey"] and not (1 <= r["line"] <= len(f))) or r["node"].startswith("f") for r in raw):
                 # outside the exception class, on well-formed streams, model and spec coincide (this is the theorem
-                # check_eq_spec_partial; evaluated here as a sanity check of the executable definitions)
+                # check_eq_spec; evaluated here as a sanity check of the executable definitions)
                 ctx.corr("model-vs-spec")
                 if model[i]["model"] != model[i]["spec"]:
                     ctx.disagree("model-vs-spec", {"lines": f, "off": off, "raw": raw}, model[i]["model"], model[i]["spec"])
@@ -845,10 +878,39 @@ def run_options(ctx, with_model=True):
                 ctx.disagree("options", {"insts": c[0], "path": c[1], "code": c[2]}, impl[i], model[i])
 
 
-# ------------------------------------------------------------------ lines stream: splitlines() and the tokenizer
+# ------------------------------------------------------------------ lines stream: _lines() and the tokenizer
+def check_lines_case(ctx, src, py, tok):
+    real = lines_of_source(ctx, src)
+    ctx.corr("splitlines")
+    if py != real:
+        ctx.disagree("splitlines", {"src": src}, "_lines(): %r" % (real,), "C11.pyLines: %r" % (py,))
+    try:
+        tree = ast.parse(src)
+    except SyntaxError:
+        ctx.tag("lines_unparsable")
+        return
+    ctx.corr("spec-toklines")
+    on = lambda ls, node: node.lineno <= len(ls) and re.search(
+        r"(^|[^0-9a-z])%s =" % node.targets[0].id, ls[node.lineno - 1])
+    for node in tree.body:
+        if isinstance(node, ast.Assign):
+            if not on(tok, node):
+                ctx.disagree("spec-toklines", {"src": src}, "CPython puts %s on line %d" % (node.targets[0].id, node.lineno),
+                             "C11.tokLines: %r" % (tok,))
+                break
+    for node in tree.body:
+        if isinstance(node, ast.Assign) and not on(real, node):
+            ctx.candidate({"src": src}, "the statement `%s = …` is on line %d for the parser, but _lines()[%d] is %r" % (
+                node.targets[0].id, node.lineno, node.lineno - 1,
+                real[node.lineno - 1] if node.lineno <= len(real) else None), cls=None, conforms=py == real, stream="lines")
+            break
+
+
+
 def run_lines(ctx, with_model=True):
-    """Random small sources: C11.pyLines == str.splitlines() (model), C11.tokLines == where CPython's parser puts
-    the statements (spec)."""
+    """Random small sources: C11.pyLines == the real _lines() (model), C11.tokLines == where CPython's parser puts
+    the statements (spec), and — the property itself — the real _lines()[lineno - 1] is the line CPython puts the
+    statement on."""
     rng = ctx.rng
     cases = []
     for k in range(ctx.n(400, 4000)):
@@ -880,22 +942,7 @@ def run_lines(ctx, with_model=True):
             continue
         m = re.match(r"py=(.*) tok=(.*)$", model[i])
         py, tok = dec_lines(m.group(1)), dec_lines(m.group(2))
-        ctx.corr("splitlines")
-        if py != src.splitlines():
-            ctx.disagree("splitlines", {"src": src}, repr(src.splitlines()), repr(py))
-        try:
-            tree = ast.parse(src)
-        except SyntaxError:
-            ctx.tag("lines_unparsable")
-            continue
-        ctx.corr("spec-toklines")
-        for node in tree.body:
-            if isinstance(node, ast.Assign):
-                name = node.targets[0].id
-                if not (node.lineno <= len(tok) and re.search(r"(^|[^0-9a-z])%s =" % name, tok[node.lineno - 1])):
-                    ctx.disagree("spec-toklines", {"src": src}, "CPython puts %s on line %d" % (name, node.lineno),
-                                 "C11.tokLines: %r" % (tok,))
-                    break
+        check_lines_case(ctx, src, py, tok)
         if py != tok:
             ctx.nontriv("lines:" + repr(src))
 
@@ -973,7 +1020,7 @@ def _run(ctx, with_model):
     for _ in range(ctx.n(3, 30)):
         program_case(ctx, batch, gen_program(ctx.rng), budget_rand)
     lap("random_programs")
-    for _ in range(ctx.n(2, 8)):   # sources where splitlines() and the tokenizer disagree about the lines
+    for _ in range(ctx.n(2, 8)):   # sources where str.splitlines() and the tokenizer disagree (repaired by ba62f49)
         program_case(ctx, batch, inject_breaks(ctx.rng, gen_program(ctx.rng, small=True)), budget_rand)
     lap("break_programs")
     PROFILE[0] = "wide"      # every error code on: lint codes join the diagnostics and the subsets
@@ -1011,18 +1058,19 @@ def replay_e2e(ctx, batch, item):
         return run_cli(ctx, base)
     src = "\n".join(base) + "\n"
     PROFILE[0] = item.get("profile", "std")
-    D, raw0, used0 = real_run(ctx, src)
+    D, raw0, used0, lines0 = real_run(ctx, src)
     if off:
-        D2, raw2, used2 = real_run(ctx, src, off=off, route=route)
+        D2, raw2, used2, lines2 = real_run(ctx, src, off=off, route=route)
         exp = D if route == "ovr-other" else [d for d in D if d[0] not in off]
         what = None if sorted(D2, key=repr) == sorted(exp, key=repr) else "disabling %s (%s) is not a projection: got %s, expected %s" % (off, route, D2, exp)
-        batch.add("e2e-disable", item, base, [] if route == "ovr-other" else off, D2, raw2, used2, what)
+        batch.add("e2e-disable", item, base, [] if route == "ovr-other" else off, D2, raw2, used2, what, seen=lines2)
     else:
         new_lines, newno, comments = apply_edits(base, edits)
-        D2, raw2, used2 = real_run(ctx, "\n".join(new_lines) + "\n")
+        D2, raw2, used2, lines2 = real_run(ctx, "\n".join(new_lines) + "\n")
         what = check_variant(ctx, "e2e-comment", base, D, edits, D2)
         batch.add("e2e-comment" if len(edits) == 1 else "e2e-multi", {"program": base, "edits": [list(e) for e in edits], "off": []},
-                  new_lines, [], D2, raw2, used2, what, spec_expect=spec_expectation(D, base, edits) if len(edits) == 1 else None)
+                  new_lines, [], D2, raw2, used2, what, spec_expect=spec_expectation(D, base, edits) if len(edits) == 1 else None,
+                  seen=lines2)
 
 
 def replay_units(ctx, items, with_model=True):
@@ -1056,6 +1104,9 @@ def replay(ctx, data):
         batch.flush()
     elif "lines" in case:
         replay_units(ctx, [case])
+    elif "src" in case:
+        m = re.match(r"py=(.*) tok=(.*)$", lean.run_driver("C11", ["S|" + enc_line(case["src"])])[0])
+        check_lines_case(ctx, case["src"], dec_lines(m.group(1)), dec_lines(m.group(2)))
     elif "insts" in case:
         print("options case:", case)
     print(json.dumps({"case": case, "candidates": ctx.candidates, "broken": ctx.broken}, indent=1, default=str))
